@@ -1,5 +1,6 @@
-"""./check --setup : build the whole Coq development (full .vo build) and every driver, from files on disk."""
-import glob, os, sys
+"""./check --setup : full .vo build of the Coq files every claimed property needs, and their drivers,
+from files on disk (offline).  Only properties listed in MANIFEST.json are built."""
+import importlib, json, os, sys
 import core
 
 
@@ -8,17 +9,21 @@ def main():
     ok, out = core.regenerate(res)
     if not ok:
         print(out[-2000:]); return 2
-    vs = []
-    for root, _, files in os.walk(core.COQ):
-        for f in files:
-            if f.endswith('.v'):
-                vs.append(os.path.relpath(os.path.join(root, f), core.COQ))
-    ok, out = core.coq_make(sorted(vs), jobs=16, timeout=3400)
+    man = json.load(open(os.path.join(core.VERIF, 'MANIFEST.json')))
+    vfiles, drivers = [], []
+    for c in man['checks']:
+        mod = importlib.import_module('props.' + c['property_id'].lower())
+        for f in mod.COQ_FILES:
+            if f not in vfiles:
+                vfiles.append(f)
+        d = getattr(mod, 'DRIVER', None)
+        if d and d not in drivers:
+            drivers.append(d)
+    ok, out = core.coq_make(vfiles, jobs=16, timeout=3400)
     print(out[-3000:])
     if not ok:
         print('setup: coq build failed'); return 2
-    for d in sorted(glob.glob(os.path.join(core.OCAML, '*_driver.ml'))):
-        name = os.path.basename(d)[:-len('_driver.ml')]
+    for name in drivers:
         exe, o = core.build_driver(name)
         if exe is None:
             print(o[-2000:]); print('setup: driver %s failed' % name); return 2
